@@ -627,6 +627,20 @@ def _s8_column_operand_kinds(program, res, rule="C05-S8"):
             v = r.value if isinstance(r, ast.Return) else (r.value if isinstance(r, ast.Assign) and len(r.targets) == 1 and unparse(r.targets[0]) == "res" else None)
             if isinstance(v, ast.Call) and (dotted_name(v.func) or "") in facts.NUMPY_ARRAY_VALUED:
                 producers.append((f, dotted_name(v.func)))
+    # ... or a plain Python list (a comprehension over the rows)
+    list_producers = []
+    for f in program.all_functions():
+        if f.module is not mod:
+            continue
+        for r in ast.walk(f.node):
+            if isinstance(r, ast.Return) and isinstance(r.value, ast.Name):
+                defs_ = [a.value for a in ast.walk(f.node) if isinstance(a, ast.Assign) and len(a.targets) == 1 and isinstance(a.targets[0], ast.Name) and a.targets[0].id == r.value.id]
+                if defs_ and all(isinstance(dv, ast.ListComp) for dv in defs_):
+                    list_producers.append(f)
+            elif isinstance(r, ast.Return) and isinstance(r.value, ast.ListComp):
+                list_producers.append(f)
+            elif isinstance(r, ast.Lambda) and isinstance(r.body, ast.ListComp):
+                list_producers.append(f)
     if not producers:
         res.ok(rule, "no Pandas expression implementation returns a bare numpy array")
         return
@@ -641,7 +655,13 @@ def _s8_column_operand_kinds(program, res, rule="C05-S8"):
             p_ = t.args[0].id
             also_array = any(isinstance(c, ast.Call) and dotted_name(c.func) == "isinstance" and len(c.args) == 2 and isinstance(c.args[0], ast.Name) and c.args[0].id == p_
                              and "ndarray" in unparse(c.args[1]) for c in ast.walk(f.node))
-            if also_array:
+            also_list = any(isinstance(c, ast.Call) and dotted_name(c.func) == "isinstance" and len(c.args) == 2 and isinstance(c.args[0], ast.Name) and c.args[0].id == p_
+                            and "list" in unparse(c.args[1]) for c in ast.walk(f.node))
+            if also_array and list_producers and not also_list:
+                res.fail_at(rule, f, f"list-operand-taken-for-scalar:{f.node.name}:{p_}",
+                            f"{f.node.name} takes `{p_}` for a scalar unless it is a Series or an array, but {len(list_producers)} implementation(s) "
+                            f"({sorted(set(x.node.name for x in list_producers))[:4]}) hand back Python lists: f.fmax(timestamp_diff(t1, t2)) raises 'Data must be 1-dimensional'", t)
+            elif also_array:
                 res.ok(rule, f"{f.where()}: `{p_}` is recognised as a column when it is a Series or a numpy array")
             else:
                 res.fail_at(rule, f, f"array-operand-taken-for-scalar:{f.node.name}:{p_}",
